@@ -12,7 +12,8 @@ use std::cmp::Ordering;
 pub const RULE: &str = "generated lists (length 0..40; numbers with duplicates and +-0, strings, nested lists, mixed types, tagged [key, tag] pairs), strings (ASCII, multi-byte, astral, combining sequences, empty), records and integer / negative / out-of-range index, chunk-size and slice arguments; every law of the statement is evaluated through the evaluator (built-in calls, index / field access, spread syntax) and checked on the serialised results against harness-side definitions. Non-trivial = a list of length >= 3 containing a duplicate, or a string with a non-ASCII character; distinct by the serialised case.";
 pub const ASSUMPTIONS: &[&str] = &[
     "a string's character sequence is its sequence of Unicode scalar values (what indexing and spreading expose)",
-    "fractional indices and slice bounds, negative slice bounds and out-of-range slice bounds have no law in the statement; they are exercised only for absence of crashes (C01) - except that a string and the list of its characters must agree on whether a slice beyond the end succeeds",
+    "a fractional index denotes the position it truncates to, towards zero (the evaluator converts the index with `as i64`; the quantifier lists fractional index arguments, so some reading has to decide them): l[-0.5] is l[0], l[-1.5] is l[-1]",
+    "fractional slice bounds, negative slice bounds and out-of-range slice bounds have no law in the statement; they are exercised only for absence of crashes (C01) - except that a string and the list of its characters must agree on whether a slice beyond the end succeeds",
     "stability is observable only between elements that compare equal but are distinguishable (0 / -0, tagged pairs)",
 ];
 
@@ -201,6 +202,19 @@ impl Check for ListLaws {
                 }
             }
         }
+        // key functions that fail (on some or all elements, or because they want two arguments):
+        // whatever sort_by makes of them, its result is a permutation of its input
+        for src in ["x => -x", "r => r.a", "x => x[0]", "(a, b) => a", "x => nope_undefined", "x => x + 1", "x => len(x)", "7"] {
+            match sess.probe(&format!("sort_by(l, {})", src)) {
+                Ok(MV::List(got)) => {
+                    if !is_permutation(&got, l) {
+                        fail!(format!("sort_by:permutation-with-failing-key:{}", cls), "sort_by({}, {}) = {} is not a permutation of its input", MV::List(l.clone()).to_source(false), src, MV::List(got).to_source(false));
+                    }
+                }
+                Ok(other) => fail!(format!("sort_by:result:{}", cls), "sort_by(l, {}) = {:?}", src, other),
+                Err(_) => {}
+            }
+        }
         // unique: first member of each .== class, in order
         let mut uniq: Vec<MV> = Vec::new();
         for x in l {
@@ -277,6 +291,15 @@ impl Check for ListLaws {
             want(&sess, "index:last", cls, "l[-1]", &l[len - 1])?;
         }
         want(&sess, "index:beyond", cls, "l[len(l)]", &MV::Null)?;
+        // fractional indices denote the position they truncate to (towards zero)
+        for (num_, den) in [(1i64, 2i64), (-1, 2), (-1, 4), (-9, 10), (3, 2), (-3, 2), (5, 4), (-7, 4)] {
+            let f = num_ as f64 / den as f64;
+            let tr = f.trunc() as i64;
+            let exp = if f.trunc() == 0.0 || tr > 0 { l.get(tr.max(0) as usize).cloned() } else if len as i64 + tr >= 0 { l.get((len as i64 + tr) as usize).cloned() } else { None };
+            sess.bind("fi", &num(f));
+            want(&sess, "index:fractional", cls, "l[fi]", &exp.clone().unwrap_or(MV::Null))?;
+            want(&sess, "index:fractional-computed", cls, &format!("l[{} / {}]", num_, den).replace("l[-", "l[0 - "), &exp.unwrap_or(MV::Null))?;
+        }
         // includes on lists is membership under .== (as unique and the dot operators use it)
         if len > 0 {
             let j = (c.i.unsigned_abs() as usize) % len;
